@@ -68,6 +68,15 @@ func process1MapMerge(obj map[string]any, mergeFrom *Document, mergeFromDocs []*
 		return nil, err
 	}
 
+	// A map that names itself as the subtree to merge in is a reference
+	// cycle. Longer cycles arrive here too: merging happens in place, so
+	// once the chain leads back, obj itself is the referenced subtree.
+	// Without this the depth limit would still end the expansion, but only
+	// after every list inside obj has doubled at each of the 1000 levels.
+	if inMap, ok := in.(map[string]any); ok && sameObject(inMap, obj) {
+		return nil, fmt.Errorf("$merge: %v: %w", v, ErrCircularRef)
+	}
+
 	// The referenced subtree may lie inside obj itself ($merge: c next to a
 	// key c); merging it in while it is being modified made the result
 	// depend on map iteration order. Merge a private copy.
@@ -101,6 +110,7 @@ func process1MapReplace(obj map[string]any, mergeFrom *Document, mergeFromDocs [
 
 func process1List(obj []any, mergeFrom *Document, mergeFromDocs []*Document, depth int) (any, error) {
 	merge := []any{}
+	self := obj
 
 	obj, err := filterList(obj, func(v any) ([]any, error) {
 		v2, ok := v.(map[string]any)
@@ -122,7 +132,7 @@ func process1List(obj []any, mergeFrom *Document, mergeFromDocs []*Document, dep
 	})
 
 	for _, m := range merge {
-		obj, err = process1ListMerge(obj, mergeFrom, mergeFromDocs, m, depth)
+		obj, err = process1ListMerge(obj, self, mergeFrom, mergeFromDocs, m, depth)
 		if err != nil {
 			return nil, err
 		}
@@ -151,10 +161,15 @@ func process1List(obj []any, mergeFrom *Document, mergeFromDocs []*Document, dep
 	})
 }
 
-func process1ListMerge(obj []any, mergeFrom *Document, mergeFromDocs []*Document, m any, depth int) ([]any, error) {
+func process1ListMerge(obj []any, self []any, mergeFrom *Document, mergeFromDocs []*Document, m any, depth int) ([]any, error) {
 	in, err := get(mergeFrom, mergeFromDocs, m)
 	if err != nil {
 		return nil, err
+	}
+
+	// A list that names itself as the list to merge in is a reference cycle.
+	if inList, ok := in.([]any); ok && len(inList) > 0 && sameObject(inList, self) {
+		return nil, fmt.Errorf("$merge: %v: %w", m, ErrCircularRef)
 	}
 
 	return mergeList(obj, in)
